@@ -850,6 +850,11 @@ func main() {
 		}
 	}
 
+	// ---- Block.BuildTxListExt: is the object's transaction counter read only after the `TxCount == 0` fallback?
+	fmt.Fprintf(&sb, "/-- %s -/\ndef %s : Bool := %v\n", "BuildTxListExt: no statement before the `if bl.TxCount == 0 { … vlenWire … }` fallback reads bl.TxCount / bl.TxOffset (base weight, len(Txs), first offset are computed from the counter as parsed)",
+		"buildTxListReadsCountAfterFallback", buildTxListCountOrder(btcPkg))
+	facts++
+
 	sb.WriteString("\nend GocoinV.Gen.ConsensusConsts\n")
 	out := vlib.Root() + "/lean/GocoinV/Gen/ConsensusConsts.lean"
 	if o := os.Getenv("GEN_C05_OUT"); o != "" { // self-tests of the generator: write somewhere else
